@@ -317,12 +317,154 @@ Ltac simp_reg :=
          | E : r_gpc _ = _ |- _ => rewrite E
          end; simpl;
   repeat match goal with
-         | |- context [first_pc ?k] => destruct k
-         | |- context [after_f ?k] => destruct k
-         | |- context [after_trig ?k] => destruct k
-         | |- context [if ?b then _ else _] => destruct b
-         | |- context [match r_rpc ?x with _ => _ end] => destruct (r_rpc x)
+         | |- context [first_pc ?k] => destruct k; simpl
+         | |- context [after_f ?k] => destruct k; simpl
+         | |- context [after_trig ?k] => destruct k; simpl
+         | |- context [if ?b then _ else _] => destruct b; simpl
+         | |- context [match r_rpc ?x with _ => _ end] => destruct (r_rpc x); simpl
          end; simpl; try reflexivity; try congruence; auto.
+
+Ltac slia := unfold mr, mw, contrib in *; lia.
+
+Lemma Inv2_rlock s r x :
+  Inv2 s -> getr s r = Some x -> r_rpc x = RCalled -> writer s = false ->
+  Inv2 (with_lock (setr s r (r_setr x RLocked)) (S (readers s)) false).
+Proof.
+  intros [H1 H2 H3 H4 H5 H6 H7 H8] Hx Hp Hw. unfold getr in Hx.
+  constructor; simpl; auto; try discriminate.
+  - pose proof (suml_upd mr _ _ (r_setr x RLocked) _ Hx) as Hu. unfold mr in *. simpl in Hu.
+    rewrite Hp in Hu. simpl in Hu. slia.
+  - rewrite <- H2, Hw. reflexivity.
+  - pose proof (suml_upd contrib _ _ (r_setr x RLocked) _ Hx) as Hu. unfold contrib in *. simpl in Hu.
+    rewrite Hp in Hu. slia.
+  - intros Hst i z Hz. destruct (nth_upd_inv _ _ _ _ _ Hz) as [[-> ->]|[_ Hz']]; [simpl; discriminate | eauto].
+Qed.
+
+Lemma Inv2_check s r x :
+  Inv2 s -> getr s r = Some x -> r_rpc x = RLocked ->
+  Inv2 (setr s r (r_setr x (if ctxd s then RNoSpawn else RCheckOk))).
+Proof.
+  intros HI Hx Hp. eapply Inv2_setr; [exact HI | exact Hx | | |].
+  - unfold mr; simpl. rewrite Hp. destruct (ctxd s); reflexivity.
+  - unfold contrib; simpl. rewrite Hp. destruct (ctxd s); reflexivity.
+  - simpl. destruct (ctxd s) eqn:Ed; [discriminate|]. intros _. right.
+    destruct (stopped s) eqn:Es; [|reflexivity]. rewrite (i_stopctx s HI Es) in Ed. discriminate.
+Qed.
+
+Lemma Inv2_add s r x :
+  Inv1 s -> Inv2 s -> getr s r = Some x -> r_rpc x = RCheckOk ->
+  Inv2 (with_wg (setr s r (r_setr x RAdded)) (S (wg s))).
+Proof.
+  intros HI1 HI Hx Hp. pose proof HI as [H1 H2 H3 H4 H5 H6 H7 H8]. unfold getr in Hx.
+  assert (Hns : stopped s = false).
+  { destruct (stopped s) eqn:Es; [|reflexivity]. exfalso. exact (H6 eq_refl _ _ Hx Hp). }
+  assert (Hg : r_gpc x = GNone).
+  { destruct (HI1 _ _ Hx) as (Hok & _ & _). unfold reg_okb in Hok. rewrite Hp in Hok. simpl in Hok.
+    destruct (r_gpc x); try reflexivity; rewrite ?andb_false_r in Hok; simpl in Hok; discriminate. }
+  constructor; simpl; auto.
+  - pose proof (suml_upd mr _ _ (r_setr x RAdded) _ Hx) as Hu. unfold mr in *. simpl in Hu.
+    rewrite Hp in Hu. simpl in Hu. slia.
+  - pose proof (suml_upd contrib _ _ (r_setr x RAdded) _ Hx) as Hu. unfold contrib in *. simpl in Hu.
+    rewrite Hp, Hg in Hu. simpl in Hu. slia.
+  - intros Hst. congruence.
+  - intros k y Hy Hw. pose proof (waited_stopped s k y HI Hy Hw). congruence.
+Qed.
+
+Lemma Inv2_runlock s r x p' :
+  Inv2 s -> getr s r = Some x -> holds_r (r_rpc x) = true -> holds_r p' = false ->
+  contrib (r_setr x p') = contrib x -> p' <> RCheckOk ->
+  Inv2 (with_lock (setr s r (r_setr x p')) (pred (readers s)) (writer s)).
+Proof.
+  intros [H1 H2 H3 H4 H5 H6 H7 H8] Hx Hp Hp' Hc Hk. unfold getr in Hx.
+  pose proof (suml_upd mr _ _ (r_setr x p') _ Hx) as Hu. unfold mr in *. simpl in Hu.
+  rewrite Hp, Hp' in Hu. simpl in Hu.
+  constructor; simpl; auto.
+  - slia.
+  - intros Hw. specialize (H3 Hw). slia.
+  - pose proof (suml_upd contrib _ _ (r_setr x p') _ Hx). slia.
+  - intros Hst i z Hz. destruct (nth_upd_inv _ _ _ _ _ Hz) as [[-> ->]|[_ Hz']]; [simpl; exact Hk | eauto].
+Qed.
+
+Lemma Inv2_done s r x n c :
+  Inv1 s -> Inv2 s -> getr s r = Some x -> r_gpc x = GExiting -> wg s = S n ->
+  Inv2 (with_wg (setr s r (r_settimer (r_setg x GExited) false c)) n).
+Proof.
+  intros HI1 HI Hx Hg Hwg. pose proof HI as [H1 H2 H3 H4 H5 H6 H7 H8]. unfold getr in Hx.
+  assert (Hc : contrib x = 1 /\ contrib (r_settimer (r_setg x GExited) false c) = 0).
+  { destruct (HI1 _ _ Hx) as (Hok & _ & _). unfold reg_okb in Hok. rewrite Hg in Hok.
+    unfold contrib; simpl. rewrite Hg.
+    destruct (r_rpc x); simpl in Hok; rewrite ?andb_false_r in Hok; simpl in Hok; try discriminate; auto. }
+  destruct Hc as [Hc1 Hc2].
+  constructor; simpl; auto.
+  - pose proof (suml_upd mr _ _ (r_settimer (r_setg x GExited) false c) _ Hx) as Hu. unfold mr in *. simpl in Hu. slia.
+  - pose proof (suml_upd contrib _ _ (r_settimer (r_setg x GExited) false c) _ Hx). slia.
+  - intros Hst i z Hz. destruct (nth_upd_inv _ _ _ _ _ Hz) as [[-> ->]|[_ Hz']]; [simpl; eauto | eauto].
+  - intros k y Hy Hw. specialize (H8 k y Hy Hw). slia.
+Qed.
+
+Lemma mw_pos_writer s k y : Inv2 s -> gets s k = Some y -> holds_w (s_pc y) = true -> writer s = true /\ suml mw (stops s) = 1.
+Proof.
+  intros HI Hy Hh. pose proof (i_writer s HI) as H2. unfold gets in Hy.
+  pose proof (suml_le mw _ _ _ Hy) as Hle. unfold mw in Hle at 1. rewrite Hh in Hle. simpl in Hle.
+  destruct (writer s); simpl in H2; [split; [reflexivity | lia] | lia].
+Qed.
+
+Lemma Inv2_wlock s k y :
+  Inv2 s -> gets s k = Some y -> s_pc y = SCalled -> readers s = 0 -> writer s = false ->
+  Inv2 (with_lock (sets s k (mkS (s_wait y) SLocked)) 0 true).
+Proof.
+  intros [H1 H2 H3 H4 H5 H6 H7 H8] Hy Hp Hr Hw. unfold gets in Hy.
+  constructor; simpl; auto.
+  - slia.
+  - pose proof (suml_upd mw _ _ (mkS (s_wait y) SLocked) _ Hy) as Hu. unfold mw in *. simpl in Hu.
+    rewrite Hp in Hu. simpl in Hu. rewrite Hw in H2. simpl in H2. slia.
+  - intros i z Hz Hpz. destruct (nth_upd_inv _ _ _ _ _ Hz) as [[-> ->]|[_ Hz']]; [discriminate | eauto].
+  - intros i z Hz Hwz. destruct (nth_upd_inv _ _ _ _ _ Hz) as [[-> ->]|[_ Hz']]; [|eauto].
+    unfold waited in Hwz; simpl in Hwz. rewrite andb_false_r in Hwz. discriminate.
+Qed.
+
+Lemma Inv2_stopcancel s k y :
+  Inv2 s -> gets s k = Some y -> s_pc y = SLocked ->
+  Inv2 (with_ctx (with_regs (sets s k (mkS (s_wait y) SCancelled)) (map wake_ctx (regs s))) true (parent s) true).
+Proof.
+  intros HI Hy Hp. destruct (mw_pos_writer s k y HI Hy) as [Hw _]; [rewrite Hp; reflexivity|].
+  destruct HI as [H1 H2 H3 H4 H5 H6 H7 H8]. unfold gets in Hy.
+  constructor; simpl; auto.
+  - rewrite suml_map by apply wake_mr. exact H1.
+  - pose proof (suml_upd mw _ _ (mkS (s_wait y) SCancelled) _ Hy) as Hu. unfold mw in *. simpl in Hu.
+    rewrite Hp in Hu. simpl in Hu. slia.
+  - rewrite suml_map by apply wake_contrib. exact H4.
+  - intros _ i z Hz. rewrite nth_map in Hz. destruct (nth_error (regs s) i) as [x|] eqn:Hx; [|discriminate].
+    simpl in Hz. inversion Hz; subst z. rewrite wake_rpc.
+    specialize (H3 Hw). rewrite H3 in H1. symmetry in H1.
+    pose proof (suml_zero_nth mr _ H1 _ _ Hx) as Hm. unfold mr in Hm. intros Hc. rewrite Hc in Hm. discriminate.
+  - intros i z Hz Hwz. destruct (nth_upd_inv _ _ _ _ _ Hz) as [[-> ->]|[_ Hz']]; [|eauto].
+    unfold waited in Hwz; simpl in Hwz. rewrite andb_false_r in Hwz. discriminate.
+Qed.
+
+Lemma Inv2_wunlock s k y :
+  Inv2 s -> gets s k = Some y -> s_pc y = SCancelled ->
+  Inv2 (with_lock (sets s k (mkS (s_wait y) SUnlocked)) (readers s) false).
+Proof.
+  intros HI Hy Hp. destruct (mw_pos_writer s k y HI Hy) as [Hw Hone]; [rewrite Hp; reflexivity|].
+  pose proof (i_past s HI k y Hy) as Hst. rewrite Hp in Hst. specialize (Hst eq_refl).
+  destruct HI as [H1 H2 H3 H4 H5 H6 H7 H8]. unfold gets in Hy.
+  constructor; simpl; auto; try discriminate.
+  - pose proof (suml_upd mw _ _ (mkS (s_wait y) SUnlocked) _ Hy) as Hu. unfold mw in *. simpl in Hu.
+    rewrite Hp in Hu. simpl in Hu. slia.
+  - intros i z Hz Hwz. destruct (nth_upd_inv _ _ _ _ _ Hz) as [[-> ->]|[_ Hz']]; [|eauto].
+    unfold waited in Hwz; simpl in Hwz. rewrite andb_false_r in Hwz. discriminate.
+Qed.
+
+Lemma Inv2_parenteff s p :
+  Inv2 s -> Inv2 (with_ctx (with_regs s (map wake_ctx (regs s))) true p (stopped s)).
+Proof.
+  intros [H1 H2 H3 H4 H5 H6 H7 H8]. constructor; simpl; auto.
+  - rewrite suml_map by apply wake_mr. exact H1.
+  - rewrite suml_map by apply wake_contrib. exact H4.
+  - intros Hst i z Hz. rewrite nth_map in Hz. destruct (nth_error (regs s) i) as [x|] eqn:Hx; [|discriminate].
+    simpl in Hz. inversion Hz; subst z. rewrite wake_rpc. eauto.
+Qed.
 
 Lemma Inv2_step s l s' : Inv1 s -> Inv2 s -> step s l = Some s' -> Inv2 s'.
 Proof.
@@ -334,4 +476,639 @@ Proof.
   all: try (match goal with |- Inv2 (setr _ _ (r_gate _ _ _)) => eapply Inv2_gate; eauto end; fail).
   all: try (match goal with |- Inv2 (setr _ _ _) =>
               eapply Inv2_setr; [exact HI | eassumption | simp_reg | simp_reg | simp_reg] end; fail).
-Admitted.
+  - (* LCallStop *)
+    eapply Inv2_sets; [exact HI | eassumption | unfold mw; simpl | simpl; discriminate
+                      | unfold waited; simpl; rewrite andb_false_r; discriminate].
+    match goal with E : s_pc _ = _ |- _ => rewrite E end. reflexivity.
+  - (* LRetStop, Stop *)
+    match goal with Hy : gets s k = Some ?y, Ep : s_pc ?y = SUnlocked |- _ =>
+      eapply Inv2_sets; [exact HI | exact Hy | unfold mw; simpl; rewrite Ep; reflexivity
+                        | intros _; eapply (i_past s HI k y Hy); rewrite Ep; reflexivity
+                        | unfold waited; simpl; discriminate] end.
+  - (* LRetStop, StopAndWait *)
+    match goal with Hy : gets s k = Some ?y, Ep : s_pc ?y = SWaited, Ew : s_wait ?y = true |- _ =>
+      eapply Inv2_sets; [exact HI | exact Hy | unfold mw; simpl; rewrite Ep; reflexivity
+                        | intros _; eapply (i_past s HI k y Hy); rewrite Ep; reflexivity
+                        | intros _; eapply (i_wait s HI k y Hy); unfold waited; rewrite Ew, Ep; reflexivity] end.
+  - (* LCancelParent *)
+    destruct HI as [H1 H2 H3 H4 H5 H6 H7 H8]. constructor; simpl; auto.
+  - (* TRLock *) eapply Inv2_rlock; eauto.
+  - (* TCheck *) eapply Inv2_check; eauto.
+  - (* TAdd *) eapply Inv2_add; eauto.
+  - (* TRUnlock, not spawning *)
+    match goal with Ep : r_rpc _ = RNoSpawn |- _ =>
+      eapply Inv2_runlock; [exact HI | eassumption | rewrite Ep; reflexivity | reflexivity
+                           | unfold contrib; simpl; rewrite Ep; reflexivity | discriminate] end.
+  - (* TRUnlock, spawning *)
+    match goal with Ep : r_rpc _ = RAdded |- _ =>
+      eapply Inv2_runlock; [exact HI | eassumption | rewrite Ep; reflexivity | reflexivity
+                           | unfold contrib; simpl; rewrite Ep; reflexivity | discriminate] end.
+  - (* TDone *) eapply Inv2_done; eauto.
+  - (* TWLock *) eapply Inv2_wlock; eauto.
+  - (* TStopCancel *) eapply Inv2_stopcancel; eauto.
+  - (* TWUnlock *) eapply Inv2_wunlock; eauto.
+  - (* TWait *)
+    match goal with Hy : gets s k = Some ?y, Ep : s_pc ?y = SUnlocked |- _ =>
+      eapply Inv2_sets; [exact HI | exact Hy | unfold mw; simpl; rewrite Ep; reflexivity
+                        | intros _; eapply (i_past s HI k y Hy); rewrite Ep; reflexivity
+                        | intros _; assumption] end.
+  - (* TParentEff *) apply Inv2_parenteff; exact HI.
+Qed.
+
+
+Lemma Inv2_qstep s l s' : Inv1 s -> Inv2 s -> qstep s l = Some s' -> Inv2 s'.
+Proof.
+  intros HI1 HI Hq. destruct (qstep_cases _ _ _ Hq) as [(_ & ->)|Hs]; [exact HI | eapply Inv2_step; eauto].
+Qed.
+
+(* ------------------------------------------------------------------ *)
+(* Inv3: no trigger token is lost                                      *)
+(* ------------------------------------------------------------------ *)
+
+(* the goroutine has taken its decision to run f: its next visible event is f-enter *)
+Definition pre_run (g : gpc) : bool :=
+  match g with GStopT | GDrain | GReset | GRunF => true | _ => false end.
+
+(* what is owed to a trigger call that saw [n] runs at its Call event: the group is cancelled, or
+   the token is in the one-slot channel, or the goroutine is on its way into f, or a run of f has
+   begun after the call *)
+Definition kept (d : bool) (x : reg) (n : nat) : Prop :=
+  d = true \/ r_tok x = true \/ pre_run (r_gpc x) = true \/ n < r_runs x.
+
+Definition sent (p : tpc) : bool := match p with TSent | TRet => true | _ => false end.
+
+Definition trig_ok (s : st) (y : trig) : Prop :=
+  t_pc y <> TIdle ->
+  exists x, nth_error (regs s) (t_reg y) = Some x /\ has_trig (r_kind x) = true /\ r_rpc x = RRet /\
+            t_runs0 y <= r_runs x /\ (sent (t_pc y) = true -> kept (ctxd s) x (t_runs0 y)).
+
+Definition Inv3 (s : st) : Prop := forall t y, nth_error (trigs s) t = Some y -> trig_ok s y.
+
+Lemma Inv3_init c : Inv3 (init c).
+Proof.
+  intros t y Hy. unfold init in Hy; simpl in Hy. rewrite nth_map in Hy.
+  destruct (nth_error (c_trigs c) t); [|discriminate]. simpl in Hy. inversion Hy; subst y.
+  intros H. simpl in H. congruence.
+Qed.
+
+(* how one registration may change in one step, as far as trigger calls are concerned *)
+Definition rtr (d d' : bool) (x x' : reg) : Prop :=
+  r_kind x' = r_kind x /\ (r_rpc x = RRet -> r_rpc x' = RRet) /\ r_runs x <= r_runs x' /\
+  (forall n, n <= r_runs x -> kept d x n -> kept d' x' n).
+
+Lemma rtr_refl d d' x : (d = true -> d' = true) -> rtr d d' x x.
+Proof. intros Hd. unfold rtr, kept. repeat split; auto. intros n _ [H|H]; auto. Qed.
+
+Lemma Inv3_regs s s' :
+  trigs s' = trigs s ->
+  (forall i x, nth_error (regs s) i = Some x -> exists x', nth_error (regs s') i = Some x' /\ rtr (ctxd s) (ctxd s') x x') ->
+  Inv3 s -> Inv3 s'.
+Proof.
+  intros Ht Hr HI t y Hy. rewrite Ht in Hy. intros Hpc.
+  destruct (HI t y Hy Hpc) as (x & Hx & Hk & Hp & Hle & Hs).
+  destruct (Hr _ _ Hx) as (x' & Hx' & Hk' & Hp' & Hle' & Hkept).
+  exists x'. repeat split; auto; try congruence; try lia.
+  all: intros Hsent; apply Hkept; auto.
+Qed.
+
+Lemma rel_upd (R : reg -> reg -> Prop) l r x x' :
+  nth_error l r = Some x -> R x x' -> (forall z, R z z) ->
+  forall i z, nth_error l i = Some z -> exists z', nth_error (upd l r x') i = Some z' /\ R z z'.
+Proof.
+  intros Hx HR Hrefl i z Hz. destruct (Nat.eq_dec r i) as [->|Hne].
+  - exists x'. split; [eapply nth_upd_same; eauto | congruence].
+  - exists z. rewrite nth_error_upd_other by exact Hne. auto.
+Qed.
+
+Lemma rel_map (R : reg -> reg -> Prop) l f :
+  (forall z, R z (f z)) ->
+  forall i z, nth_error l i = Some z -> exists z', nth_error (map f l) i = Some z' /\ R z z'.
+Proof. intros HR i z Hz. exists (f z). rewrite nth_map, Hz. auto. Qed.
+
+(* one registration changes; context bit and trigger-call threads stay *)
+Lemma Inv3_setr s r x x' :
+  Inv3 s -> getr s r = Some x -> rtr (ctxd s) (ctxd s) x x' -> Inv3 (setr s r x').
+Proof.
+  intros HI Hx HR. apply (Inv3_regs s (setr s r x')); [reflexivity | | exact HI]. simpl.
+  eapply rel_upd; [exact Hx | exact HR | intros z; apply rtr_refl; auto].
+Qed.
+
+Lemma Inv3_wake s s' :
+  trigs s' = trigs s -> regs s' = map wake_ctx (regs s) -> ctxd s' = true -> Inv3 s -> Inv3 s'.
+Proof.
+  intros Ht Hr Hd HI. apply (Inv3_regs s s'); [exact Ht | | exact HI]. rewrite Hr, Hd.
+  apply rel_map. intros z. unfold rtr, kept, wake_ctx. destruct (r_gpc z); simpl; repeat split; auto.
+Qed.
+
+Lemma Inv3_same s s' :
+  trigs s' = trigs s -> regs s' = regs s -> ctxd s' = ctxd s -> Inv3 s -> Inv3 s'.
+Proof.
+  intros Ht Hr Hd HI. apply (Inv3_regs s s'); [exact Ht | | exact HI]. rewrite Hr, Hd.
+  intros i x Hx. exists x. split; [exact Hx | apply rtr_refl; auto].
+Qed.
+
+Ltac rtr_solve :=
+  unfold rtr, kept; simpl;
+  repeat match goal with
+         | E : r_gpc _ = _ |- _ => rewrite E
+         | E : r_rpc _ = _ |- _ => rewrite E
+         end; simpl;
+  repeat split; auto; try lia; try congruence;
+  let n := fresh "n" in let Hn := fresh "Hn" in let Hk := fresh "Hk" in
+  intros n Hn Hk; decompose [or] Hk; clear Hk; simpl in *; try discriminate; auto;
+  try (right; right; right; lia);
+  repeat match goal with
+         | |- context [after_trig ?k] => destruct k; simpl
+         | |- context [after_f ?k] => destruct k; simpl
+         | |- context [first_pc ?k] => destruct k; simpl
+         | |- context [if ?b then _ else _] => destruct b; simpl
+         end; auto.
+
+Lemma Inv3_with_lock s a b : Inv3 s -> Inv3 (with_lock s a b).
+Proof. intros H; exact H. Qed.
+Lemma Inv3_with_wg s n : Inv3 s -> Inv3 (with_wg s n).
+Proof. intros H; exact H. Qed.
+Lemma Inv3_with_stops s l : Inv3 s -> Inv3 (with_stops s l).
+Proof. intros H; exact H. Qed.
+
+Lemma Inv3_sett s t y' : Inv3 s -> trig_ok s y' -> Inv3 (sett s t y').
+Proof.
+  intros HI Hy t0 z Hz. simpl in Hz.
+  destruct (nth_upd_inv _ _ _ _ _ Hz) as [[_ ->]|[_ Hz']]; [exact Hy | exact (HI t0 z Hz')].
+Qed.
+
+Lemma Inv3_calltrig s t y x :
+  Inv3 s -> gett s t = Some y -> getr s (t_reg y) = Some x -> r_rpc x = RRet -> has_trig (r_kind x) = true ->
+  Inv3 (sett s t (mkT (t_reg y) TCalled (r_runs x))).
+Proof.
+  intros HI Hy Hx Hp Hk. apply Inv3_sett; [exact HI|]. intros _. exists x. simpl.
+  repeat split; auto. discriminate.
+Qed.
+
+Lemma Inv3_rettrig s t y :
+  Inv3 s -> gett s t = Some y -> t_pc y = TSent -> Inv3 (sett s t (mkT (t_reg y) TRet (t_runs0 y))).
+Proof.
+  intros HI Hy Hp. apply Inv3_sett; [exact HI|]. intros _.
+  destruct (HI t y Hy) as (x & Hx & Hk & Hr & Hle & Hs); [congruence|].
+  exists x. simpl. repeat split; auto. intros _. apply Hs. rewrite Hp. reflexivity.
+Qed.
+
+Lemma Inv3_send s t y x x' :
+  Inv3 s -> gett s t = Some y -> t_pc y = TCalled -> getr s (t_reg y) = Some x ->
+  rtr (ctxd s) (ctxd s) x x' -> (r_tok x' = true \/ pre_run (r_gpc x') = true) ->
+  Inv3 (sett (setr s (t_reg y) x') t (mkT (t_reg y) TSent (t_runs0 y))).
+Proof.
+  intros HI Hy Hp Hx HR Hnew. apply Inv3_sett; [eapply Inv3_setr; eauto|]. intros _.
+  destruct (HI t y Hy) as (x0 & Hx0 & Hk & Hr & Hle & _); [congruence|].
+  unfold getr in Hx. assert (x0 = x) by congruence. subst x0.
+  destruct HR as (Hk' & Hr' & Hle' & _).
+  exists x'. simpl. split; [eapply nth_upd_same; eauto|].
+  repeat split; auto; try congruence; try lia.
+  intros _. unfold kept. destruct Hnew; auto.
+Qed.
+
+Lemma Inv3_drop s t y x :
+  Inv3 s -> gett s t = Some y -> t_pc y = TCalled -> getr s (t_reg y) = Some x -> r_tok x = true ->
+  Inv3 (sett s t (mkT (t_reg y) TSent (t_runs0 y))).
+Proof.
+  intros HI Hy Hp Hx Htok. apply Inv3_sett; [exact HI|]. intros _.
+  destruct (HI t y Hy) as (x0 & Hx0 & Hk & Hr & Hle & _); [congruence|].
+  unfold getr in Hx. assert (x0 = x) by congruence. subst x0.
+  exists x. simpl. repeat split; auto. intros _. unfold kept. auto.
+Qed.
+
+Lemma Inv3_step s l s' : Inv1 s -> Inv3 s -> step s l = Some s' -> Inv3 s'.
+Proof.
+  intros HI1 HI Hs. unfold step in Hs.
+  destruct l; dstep Hs; try discriminate Hs; injection Hs as Hs; subst s'.
+  all: try exact HI.
+  all: try (match goal with |- Inv3 (with_lock _ _ _) => apply Inv3_with_lock
+                          | |- Inv3 (with_wg _ _) => apply Inv3_with_wg end).
+  all: try (match goal with |- Inv3 (setr _ _ _) =>
+              eapply Inv3_setr; [exact HI | eassumption | rtr_solve] end; fail).
+  all: try (apply (Inv3_same s); [reflexivity | reflexivity | reflexivity | exact HI]; fail).
+  all: try (apply (Inv3_wake s); [reflexivity | reflexivity | reflexivity | exact HI]; fail).
+  all: try (eapply Inv3_calltrig; eauto; fail).
+  all: try (eapply Inv3_rettrig; eauto; fail).
+  all: try (eapply Inv3_drop; eauto; fail).
+  all: try (eapply Inv3_send; [exact HI | eassumption | assumption | eassumption | rtr_solve
+                              | simpl; auto; right; destruct (r_kind _); reflexivity]; fail).
+  (* TGo: the goroutine did not exist before *)
+  match goal with Hx : getr s ?r = Some ?x, Ep : r_rpc ?x = RUnlocked |- _ =>
+    assert (Hg : r_gpc x = GNone);
+    [ destruct (HI1 _ _ Hx) as (Hok & _ & _); unfold reg_okb in Hok; rewrite Ep in Hok; simpl in Hok;
+      destruct (r_gpc x); try reflexivity; rewrite ?andb_false_r in Hok; simpl in Hok; discriminate
+    | eapply Inv3_setr; [exact HI | exact Hx | rtr_solve] ]
+  end.
+Qed.
+
+Lemma Inv3_qstep s l s' : Inv1 s -> Inv3 s -> qstep s l = Some s' -> Inv3 s'.
+Proof.
+  intros HI1 HI Hq. destruct (qstep_cases _ _ _ Hq) as [(_ & ->)|Hs]; [exact HI | eapply Inv3_step; eauto].
+Qed.
+
+(* ------------------------------------------------------------------ *)
+(* all three invariants hold in every reachable state                  *)
+(* ------------------------------------------------------------------ *)
+
+Definition Inv (s : st) : Prop := Inv1 s /\ Inv2 s /\ Inv3 s.
+
+Theorem reachable_inv c s : reachable qstep (init c) s -> Inv s.
+Proof.
+  apply invariant_rule.
+  - split; [apply Inv1_init | split; [apply Inv2_init | apply Inv3_init]].
+  - intros s0 l s1 (H1 & H2 & H3) Hq. split; [eapply Inv1_qstep; eauto | split].
+    + eapply Inv2_qstep; eauto.
+    + eapply Inv3_qstep; eauto.
+Qed.
+
+Lemma reachable_run c s ls s' :
+  reachable qstep (init c) s -> run qstep s ls = Some s' -> reachable qstep (init c) s'.
+Proof. intros [ls0 H0] Hr. exists (ls0 ++ ls). rewrite run_app, H0. exact Hr. Qed.
+
+
+
+(* ------------------------------------------------------------------ *)
+(* C17, clause 1: StopAndWait is a barrier                             *)
+(* ------------------------------------------------------------------ *)
+
+(* some StopAndWait call has got past its wg.Wait (in particular: has returned) *)
+Definition returned (s : st) : Prop := exists k y, nth_error (stops s) k = Some y /\ waited y = true.
+
+(* nothing of this registration runs, and nothing of it can start *)
+Definition reg_quiet (x : reg) : Prop :=
+  (r_gpc x = GNone \/ r_gpc x = GExited) /\ r_infl x = 0 /\
+  r_rpc x <> RCheckOk /\ r_rpc x <> RAdded /\ r_rpc x <> RUnlocked.
+
+Lemma barrier_state s :
+  Inv s -> returned s ->
+  forall r x, nth_error (regs s) r = Some x ->
+    reg_quiet x /\ step s (LFEnter r) = None /\ step s (LFExit r) = None /\ step s (TGo r) = None /\ step s (TAdd r) = None.
+Proof.
+  intros (HI1 & HI2 & _) (k & y & Hy & Hw) r x Hx.
+  pose proof (i_wait s HI2 k y Hy Hw) as Hwg.
+  pose proof (waited_stopped s k y HI2 Hy Hw) as Hst.
+  pose proof (i_wg s HI2) as Hsum. rewrite Hwg in Hsum. symmetry in Hsum.
+  pose proof (suml_zero_nth contrib _ Hsum _ _ Hx) as Hc.
+  pose proof (i_nocheck s HI2 Hst _ _ Hx) as Hnc.
+  destruct (HI1 _ _ Hx) as (_ & Hinfl & _).
+  assert (Hq : reg_quiet x).
+  { unfold reg_quiet. unfold contrib in Hc.
+    destruct (r_rpc x) eqn:Ep; try discriminate Hc; try congruence;
+      (destruct (r_gpc x) eqn:Eg; simpl in Hc; try discriminate Hc;
+       repeat split; auto; try discriminate). }
+  split; [exact Hq|]. destruct Hq as (Hg & _ & H1 & H2 & H3).
+  unfold step, getr. rewrite Hx.
+  repeat split.
+  - destruct Hg as [Hg|Hg]; rewrite Hg; reflexivity.
+  - destruct Hg as [Hg|Hg]; rewrite Hg; reflexivity.
+  - destruct (r_rpc x); try reflexivity; congruence.
+  - destruct (r_rpc x); try reflexivity; congruence.
+Qed.
+
+(* stoppers only move forward *)
+Lemma stops_mono s l s' :
+  step s l = Some s' ->
+  forall k y, nth_error (stops s) k = Some y ->
+    exists y', nth_error (stops s') k = Some y' /\ (waited y = true -> waited y' = true).
+Proof.
+  intros Hs. unfold step in Hs.
+  destruct l; dstep Hs; try discriminate Hs; injection Hs as Hs; subst s'; simpl;
+    try (intros k0 y0 Hy0; exists y0; split; [exact Hy0 | auto]; fail).
+  all: intros k0 y0 Hy0;
+    match goal with Hy : gets _ ?k = Some ?y |- _ =>
+      unfold gets in Hy; destruct (Nat.eq_dec k k0) as [->|Hne];
+      [ eexists; split; [eapply nth_upd_same; eauto|];
+        assert (y0 = y) by congruence; subst y0; unfold waited; simpl;
+        repeat match goal with E : s_pc _ = _ |- _ => rewrite E | E : s_wait _ = _ |- _ => rewrite E end;
+        simpl; rewrite ?andb_false_r; auto
+      | exists y0; rewrite nth_error_upd_other by exact Hne; auto ]
+    end.
+Qed.
+
+Lemma returned_qstep s l s' : returned s -> qstep s l = Some s' -> returned s'.
+Proof.
+  intros (k & y & Hy & Hw) Hq. destruct (qstep_cases _ _ _ Hq) as [(_ & ->)|Hs]; [exists k, y; auto|].
+  destruct (stops_mono _ _ _ Hs k y Hy) as (y' & Hy' & Hw'). exists k, y'. auto.
+Qed.
+
+Lemma returned_run s ls s' : returned s -> run qstep s ls = Some s' -> returned s'.
+Proof.
+  revert s; induction ls as [|l ls IH]; intros s Hr Hrun; simpl in Hrun.
+  - inversion Hrun; subst; exact Hr.
+  - destruct (qstep s l) as [s1|] eqn:E; [|discriminate]. eapply IH; [eapply returned_qstep; eauto | exact Hrun].
+Qed.
+
+Theorem group_barrier c s :
+  reachable qstep (init c) s -> returned s ->
+  forall ls s', run qstep s ls = Some s' ->
+  forall r x, nth_error (regs s') r = Some x ->
+    reg_quiet x /\ step s' (LFEnter r) = None /\ step s' (LFExit r) = None /\ step s' (TGo r) = None /\ step s' (TAdd r) = None.
+Proof.
+  intros Hreach Hret ls s' Hrun. apply barrier_state.
+  - eapply reachable_inv. eapply reachable_run; eauto.
+  - eapply returned_run; eauto.
+Qed.
+
+(* a run that was started before the stop (e.g. a Trigger loop that received its token and then
+   calls f although the context was cancelled in between) is covered by the WaitGroup: while any
+   goroutine is alive, or a registration is between wg.Add and go, no wg.Wait can return *)
+Theorem group_wait_covers c s k :
+  reachable qstep (init c) s ->
+  (exists r x, nth_error (regs s) r = Some x /\ contrib x = 1) ->
+  step s (TWait k) = None.
+Proof.
+  intros Hreach (r & x & Hx & Hc). destruct (reachable_inv _ _ Hreach) as (_ & HI2 & _).
+  pose proof (i_wg s HI2) as Hsum. pose proof (suml_le contrib _ _ _ Hx) as Hle.
+  unfold step. destruct (gets s k) as [y|]; [|reflexivity].
+  destruct (s_pc y); try reflexivity. destruct (s_wait y); try reflexivity.
+  destruct (wg s); [lia | reflexivity].
+Qed.
+
+(* ------------------------------------------------------------------ *)
+(* C17, clause 3: runs of one f never overlap                          *)
+(* ------------------------------------------------------------------ *)
+
+Theorem group_no_overlap c s r x :
+  reachable qstep (init c) s -> nth_error (regs s) r = Some x ->
+  r_infl x <= 1 /\ (r_infl x = 1 <-> r_gpc x = GInF) /\ r_spawns x <= 1.
+Proof.
+  intros Hreach Hx. destruct (reachable_inv _ _ Hreach) as (HI1 & _ & _).
+  destruct (HI1 _ _ Hx) as (_ & Hi & Hsp). rewrite Hi, Hsp.
+  destruct (r_gpc x); repeat split; auto; try lia; try discriminate.
+Qed.
+
+(* a run can only begin when none is in progress, and only a run in progress can end *)
+Theorem group_enter_exit c s r x :
+  reachable qstep (init c) s -> nth_error (regs s) r = Some x ->
+  (step s (LFEnter r) <> None -> r_infl x = 0) /\ (step s (LFExit r) <> None -> r_infl x = 1).
+Proof.
+  intros Hreach Hx. destruct (reachable_inv _ _ Hreach) as (HI1 & _ & _).
+  destruct (HI1 _ _ Hx) as (_ & Hi & _). unfold step, getr. rewrite Hx, Hi.
+  destruct (r_gpc x); split; intros H; try reflexivity; exfalso; apply H; reflexivity.
+Qed.
+
+(* ------------------------------------------------------------------ *)
+(* C17, clause 2: no trigger call is lost                              *)
+(* ------------------------------------------------------------------ *)
+
+Theorem group_trigger_not_lost c s t y :
+  reachable qstep (init c) s -> nth_error (trigs s) t = Some y -> sent (t_pc y) = true ->
+  exists x, nth_error (regs s) (t_reg y) = Some x /\ t_runs0 y <= r_runs x /\
+            (ctxd s = true \/ r_tok x = true \/ pre_run (r_gpc x) = true \/ t_runs0 y < r_runs x).
+Proof.
+  intros Hreach Hy Hs. destruct (reachable_inv _ _ Hreach) as (_ & _ & HI3).
+  assert (Hne : t_pc y <> TIdle) by (intros E; rewrite E in Hs; discriminate Hs).
+  destruct (HI3 t y Hy Hne) as (x & Hx & _ & _ & Hle & Hk).
+  exists x. split; [exact Hx | split; [exact Hle | exact (Hk Hs)]].
+Qed.
+
+(* [t_runs0] really is the number of runs begun before the Call event *)
+Lemma calltrig_records s t s' :
+  step s (LCallTrig t) = Some s' ->
+  exists y x, gett s t = Some y /\ getr s (t_reg y) = Some x /\
+              gett s' t = Some (mkT (t_reg y) TCalled (r_runs x)).
+Proof.
+  intros Hs. unfold step in Hs. dstep Hs. injection Hs as Hs; subst s'.
+  eexists; eexists. split; [reflexivity|]. split; [eassumption|].
+  unfold gett; simpl. eapply nth_upd_same. eassumption.
+Qed.
+
+(* the labels by which r's goroutine moves towards its next f-enter *)
+Definition gor_labels (r : nat) : list lab :=
+  [TNewTimer r; TCheckCtx r; TSelTimer r; TSelTrig r; TStopTimer r; TDrain r; TReset r; LFEnter r].
+
+Definition en (s : st) (l : lab) : Prop := step s l <> None.
+
+Ltac pick l Hx Eg := exists l; split; [simpl; auto 20 | unfold en, step, getr; rewrite Hx, Eg].
+Ltac pick_by r Hx Eg :=
+  match type of Eg with
+  | _ = GStart => pick (TNewTimer r) Hx Eg
+  | _ = GTop => pick (TCheckCtx r) Hx Eg
+  | _ = GStopT => pick (TStopTimer r) Hx Eg
+  | _ = GDrain => pick (TDrain r) Hx Eg
+  | _ = GReset => pick (TReset r) Hx Eg
+  | _ = GRunF => pick (LFEnter r) Hx Eg
+  end.
+Ltac simp_ok H := simpl in H; rewrite ?andb_false_r in H; simpl in H; rewrite ?andb_false_r in H; simpl in H.
+(* read the timer bits off the invariant *)
+Ltac timer_bits H :=
+  match type of H with
+  | context [r_kind ?x] => destruct (r_kind x); simp_ok H; try discriminate H
+  | _ => idtac
+  end;
+  match type of H with
+  | context [r_tact ?x] => destruct (r_tact x), (r_tchan x); simp_ok H; try discriminate H
+  | _ => idtac
+  end.
+
+(* progress: as long as the group is not cancelled and no run has begun after the call, the
+   goroutine is either still inside the previous run of f (waiting for the caller's f to return)
+   or one of its own steps towards f-enter is enabled - it is never parked and never gone *)
+Theorem group_trigger_progress c s t y :
+  reachable qstep (init c) s -> nth_error (trigs s) t = Some y -> sent (t_pc y) = true ->
+  ctxd s = false ->
+  exists x, nth_error (regs s) (t_reg y) = Some x /\
+    (t_runs0 y < r_runs x \/ r_gpc x = GInF \/ exists l, In l (gor_labels (t_reg y)) /\ en s l).
+Proof.
+  intros Hreach Hy Hs Hd. destruct (reachable_inv _ _ Hreach) as (HI1 & _ & HI3).
+  assert (Hne : t_pc y <> TIdle) by (intros E; rewrite E in Hs; discriminate Hs).
+  destruct (HI3 t y Hy Hne) as (x & Hx & Hk & Hr & Hle & Hkept).
+  specialize (Hkept Hs). exists x. split; [exact Hx|].
+  destruct (HI1 _ _ Hx) as (Hok & _ & _). rewrite Hd in Hok, Hkept.
+  destruct Hkept as [Hc|[Htok|[Hpre|Hlt]]]; [discriminate | | | left; exact Hlt].
+  - (* the token is in the channel *)
+    right. unfold reg_okb in Hok. rewrite Hr, Htok, Hk in Hok.
+    destruct (r_gpc x) eqn:Eg; simp_ok Hok; try discriminate Hok;
+      try (left; reflexivity);
+      try (right; pick_by (t_reg y) Hx Eg; try discriminate; timer_bits Hok; discriminate);
+      try (destruct (r_kind x); simpl in Hk; try discriminate Hk; simp_ok Hok; discriminate Hok).
+    right. pick (TSelTrig (t_reg y)) Hx Eg. rewrite Hk, Htok. discriminate.
+  - (* the goroutine has received the token and is on its way into f *)
+    right. right. unfold reg_okb in Hok.
+    destruct (r_gpc x) eqn:Eg; simpl in Hpre; try discriminate Hpre;
+      pick_by (t_reg y) Hx Eg; try discriminate; simp_ok Hok; timer_bits Hok; discriminate.
+Qed.
+
+(* variant: the distance of a loop goroutine to its next f-enter *)
+Definition gdist (g : gpc) : nat :=
+  match g with
+  | GInF => 9 | GStart => 8 | GTop => 7 | GSelect => 6 | GParked => 5 | GStopT => 4 | GDrain => 3
+  | GReset => 2 | GRunF => 1 | _ => 10
+  end.
+
+(* every step of a loop goroutine other than f-enter itself (including parking, and the return of f)
+   strictly decreases the distance while the group is not cancelled; so does the timer firing on a
+   parked goroutine *)
+Theorem group_loop_variant s r l s' x x' :
+  step s l = Some s' -> In l (gor_labels r ++ [TPark r; LFExit r; TFire r]) -> l <> LFEnter r ->
+  getr s r = Some x -> getr s' r = Some x' -> ctxd s = false -> r_kind x <> KDo ->
+  (l = TFire r -> r_gpc x = GParked) ->
+  gdist (r_gpc x') < gdist (r_gpc x).
+Proof.
+  intros Hs Hin Hne Hx Hx' Hd Hk Hf. simpl in Hin.
+  assert (Hlen : r < length (regs s)) by (eapply nth_lt; exact Hx).
+  decompose [or] Hin; try contradiction; subst l; try congruence;
+    unfold step in Hs; rewrite Hx in Hs; dstep Hs; try discriminate Hs; injection Hs as Hs; subst s';
+    unfold getr in Hx'; simpl in Hx'; rewrite nth_error_upd_same in Hx' by exact Hlen;
+    inversion Hx'; subst x'; simpl;
+    repeat match goal with E : r_gpc _ = _ |- _ => rewrite E end; simpl; try lia;
+    try (specialize (Hf eq_refl); congruence);
+    try (rewrite Hd; simpl; lia);
+    try (destruct (r_tact x); simpl; lia);
+    try (destruct (r_kind x); simpl; try lia; congruence).
+Qed.
+
+(* ------------------------------------------------------------------ *)
+(* C17, clause 4: periodic functions keep being invoked                *)
+(* ------------------------------------------------------------------ *)
+
+(* timer facts at the places where the loop waits *)
+Theorem group_timer_facts c s r x :
+  reachable qstep (init c) s -> nth_error (regs s) r = Some x -> has_timer (r_kind x) = true ->
+  (* no stale value: the timer is never pending while a value sits in its channel *)
+  (r_tact x && r_tchan x = false) /\
+  (* about to select: Armed or Fired *)
+  (r_gpc x = GSelect -> xorb (r_tact x) (r_tchan x) = true) /\
+  (* parked in the select: Armed, so it will fire, and the fire wakes the loop *)
+  (r_gpc x = GParked -> r_tact x = true /\ r_tchan x = false /\
+                        exists s' x', step s (TFire r) = Some s' /\ getr s' r = Some x' /\ r_gpc x' = GReset) /\
+  (* the drain <-t.C is only executed when the channel really holds a value *)
+  (r_gpc x = GDrain -> r_tchan x = true /\ en s (TDrain r)) /\
+  (* t.Reset is only called on a stopped-or-expired timer with an empty channel *)
+  (r_gpc x = GReset -> r_tact x = false /\ r_tchan x = false) /\
+  (* the loop only exits when the group's context is cancelled *)
+  (r_gpc x = GExiting \/ r_gpc x = GExited -> ctxd s = true).
+Proof.
+  intros Hreach Hx Hk. destruct (reachable_inv _ _ Hreach) as (HI1 & _ & _).
+  destruct (HI1 _ _ Hx) as (Hok & _ & _). unfold reg_okb, timer_ok in Hok. rewrite Hk in Hok.
+  assert (Hlen : r < length (regs s)) by (eapply nth_lt; exact Hx).
+  repeat split.
+  - destruct (r_gpc x), (r_tact x), (r_tchan x); simpl in Hok; rewrite ?andb_false_r in Hok; try discriminate Hok; reflexivity.
+  - intros Eg. rewrite Eg in Hok. destruct (r_tact x), (r_tchan x); simpl in Hok; rewrite ?andb_false_r in Hok; try discriminate Hok; reflexivity.
+  - rewrite H in Hok. destruct (r_tact x), (r_tchan x); simpl in Hok; rewrite ?andb_false_r in Hok; try discriminate Hok; reflexivity.
+  - rewrite H in Hok. destruct (r_tact x), (r_tchan x); simpl in Hok; rewrite ?andb_false_r in Hok; try discriminate Hok; reflexivity.
+  - assert (Ha : r_tact x = true).
+    { rewrite H in Hok. destruct (r_tact x), (r_tchan x); simpl in Hok; rewrite ?andb_false_r in Hok; try discriminate Hok; reflexivity. }
+    unfold step, getr. rewrite Hx, Ha, H. eexists; eexists. split; [reflexivity|]. simpl.
+    split; [apply nth_error_upd_same; exact Hlen | reflexivity].
+  - rewrite H in Hok. destruct (r_tact x), (r_tchan x); simpl in Hok; rewrite ?andb_false_r in Hok; try discriminate Hok; reflexivity.
+  - assert (Hc : r_tchan x = true).
+    { rewrite H in Hok. destruct (r_tact x), (r_tchan x); simpl in Hok; rewrite ?andb_false_r in Hok; try discriminate Hok; reflexivity. }
+    unfold en, step, getr. rewrite Hx, H, Hc. discriminate.
+  - rewrite H in Hok. destruct (r_tact x), (r_tchan x); simpl in Hok; rewrite ?andb_false_r in Hok; try discriminate Hok; reflexivity.
+  - rewrite H in Hok. destruct (r_tact x), (r_tchan x); simpl in Hok; rewrite ?andb_false_r in Hok; try discriminate Hok; reflexivity.
+  - intros [Eg|Eg]; rewrite Eg in Hok; destruct (r_kind x); simpl in Hk; try discriminate Hk;
+      destruct (ctxd s); try reflexivity; simpl in Hok; rewrite ?andb_false_r in Hok; discriminate Hok.
+Qed.
+
+(* progress: a live periodic loop that is not inside f always has an enabled step of its own, or
+   is parked with its timer armed (then the timer's fire is enabled): it cannot wait forever *)
+Theorem group_periodic_progress c s r x :
+  reachable qstep (init c) s -> nth_error (regs s) r = Some x -> has_timer (r_kind x) = true ->
+  ctxd s = false -> r_gpc x <> GNone ->
+  r_gpc x = GInF \/ exists l, In l (gor_labels r ++ [TPark r; TFire r]) /\ en s l.
+Proof.
+  intros Hreach Hx Hk Hd Hg. destruct (reachable_inv _ _ Hreach) as (HI1 & _ & _).
+  destruct (HI1 _ _ Hx) as (Hok & _ & _). unfold reg_okb, timer_ok in Hok. rewrite Hk, Hd in Hok.
+  destruct (r_gpc x) eqn:Eg; try congruence;
+    try (left; reflexivity);
+    try (right; pick_by r Hx Eg; try discriminate; simp_ok Hok;
+         destruct (r_tact x), (r_tchan x); simp_ok Hok; try discriminate Hok; discriminate);
+    try (destruct (r_kind x); simpl in Hk; try discriminate Hk; simp_ok Hok; discriminate Hok).
+  - (* about to select: some arm is ready, or it parks *)
+    right. destruct (r_tchan x) eqn:Ec.
+    + pick (TSelTimer r) Hx Eg. rewrite Hk, Ec. discriminate.
+    + destruct (has_trig (r_kind x) && r_tok x) eqn:Et.
+      * pick (TSelTrig r) Hx Eg. rewrite Et. discriminate.
+      * pick (TPark r) Hx Eg. rewrite Hd, Hk, Ec, Et. simpl. discriminate.
+  - (* parked: the timer is armed *)
+    right. pick (TFire r) Hx Eg. simp_ok Hok.
+    destruct (r_tact x), (r_tchan x); simp_ok Hok; try discriminate Hok. discriminate.
+Qed.
+
+(* the barrier in terms of the visible event: some StopAndWait call has returned *)
+Theorem group_barrier_ret c s :
+  reachable qstep (init c) s ->
+  (exists k y, nth_error (stops s) k = Some y /\ s_wait y = true /\ s_pc y = SRet) ->
+  forall ls s', run qstep s ls = Some s' ->
+  forall r x, nth_error (regs s') r = Some x ->
+    (r_gpc x = GNone \/ r_gpc x = GExited) /\ r_infl x = 0 /\
+    step s' (LFEnter r) = None /\ step s' (LFExit r) = None /\ step s' (TGo r) = None /\ step s' (TAdd r) = None.
+Proof.
+  intros Hreach (k & y & Hy & Hw & Hp) ls s' Hrun r x Hx.
+  assert (Hret : returned s) by (exists k, y; split; [exact Hy | unfold waited; rewrite Hw, Hp; reflexivity]).
+  destruct (group_barrier c s Hreach Hret ls s' Hrun r x Hx) as ((Hg & Hi & _) & H1 & H2 & H3 & H4).
+  repeat split; auto.
+Qed.
+
+(* ------------------------------------------------------------------ *)
+(* non-vacuity: a history exercising all four kinds, a trigger hand-off, a buffered trigger that
+   races the timer of PeriodicOrTrigger (Stop() = false, drain), StopAndWait blocked by a run of f
+   that started before the stop, and a registration after the stop that never runs *)
+(* ------------------------------------------------------------------ *)
+
+Definition ex_cfg : config :=
+  mkCfg [(KTrigger, false, true); (KPeriodic, false, true); (KPoT, false, false); (KDo, false, true)] [0; 2] [true].
+
+Definition ex_part1 : list lab :=
+  [LCallReg 0; TRLock 0; TCheck 0; TAdd 0; TRUnlock 0; TGo 0; LRetReg 0; TCheckCtx 0; TPark 0;
+   LCallTrig 0; TTrigHandoff 0; LRetTrig 0; LFEnter 0; LFExit 0; TCheckCtx 0; TPark 0;
+   LCallReg 1; TRLock 1; TCheck 1; TAdd 1; TRUnlock 1; TGo 1; LRetReg 1; TNewTimer 1; TCheckCtx 1; TPark 1;
+   TFire 1; TReset 1; LFEnter 1; LFExit 1; TCheckCtx 1; TFire 1; TSelTimer 1; TReset 1; LFEnter 1; LFExit 1;
+   LCallReg 2; TRLock 2; TCheck 2; TAdd 2; TRUnlock 2; TGo 2; LRetReg 2; TNewTimer 2; TCheckCtx 2;
+   LCallTrig 1; TTrigBuffer 1; LRetTrig 1; TFire 2; TSelTrig 2; TStopTimer 2; TDrain 2; TReset 2; LFEnter 2;
+   LCallStop 0; TWLock 0; TStopCancel 0; TWUnlock 0; TDone 0; TCheckCtx 1; TDone 1].
+
+Definition ex_part2 : list lab :=
+  [LRelease 2; LFExit 2; TCheckCtx 2; TDone 2; TWait 0; LRetStop 0; LQuiesce;
+   LCallReg 3; TRLock 3; TCheck 3; TRUnlock 3; LRetReg 3; LQuiesce].
+
+(* after part 1 the group is stopped, f of registration 2 is still running: wg.Wait cannot return *)
+Example ex_wait_blocked :
+  match run qstep (init ex_cfg) ex_part1 with
+  | Some s => (wg s, step s (TWait 0), map r_runs (regs s), map r_infl (regs s))
+  | None => (0, None, [], [])
+  end = (1, None, [1; 2; 1; 0], [0; 0; 1; 0]).
+Proof. vm_compute. reflexivity. Qed.
+
+Example ex_full_run :
+  match run qstep (init ex_cfg) (ex_part1 ++ ex_part2) with
+  | Some s => (wg s, map r_runs (regs s), map r_gpc (regs s), map s_pc (stops s), map t_pc (trigs s))
+  | None => (1, [], [], [], [])
+  end = (0, [1; 2; 1; 0], [GExited; GExited; GExited; GNone], [SRet], [TRet; TRet]).
+Proof. vm_compute. reflexivity. Qed.
+
+Example ex_reachable_returned :
+  exists s, reachable qstep (init ex_cfg) s /\
+            (exists k y, nth_error (stops s) k = Some y /\ s_wait y = true /\ s_pc y = SRet).
+Proof.
+  destruct (run qstep (init ex_cfg) (ex_part1 ++ ex_part2)) as [s|] eqn:E; [|vm_compute in E; discriminate].
+  exists s. split; [exists (ex_part1 ++ ex_part2); exact E|].
+  vm_compute in E. inversion E; subst s. exists 0. eexists. split; [reflexivity|]. split; reflexivity.
+Qed.
+
+(* the hypotheses of the trigger theorems are satisfiable: after the buffered trigger call 1 the
+   token sits in the channel while the group runs *)
+Example ex_trigger_pending :
+  match run qstep (init ex_cfg) (firstn 48 ex_part1) with
+  | Some s => (ctxd s, map t_pc (trigs s), map r_tok (regs s), map t_runs0 (trigs s))
+  | None => (true, [], [], [])
+  end = (false, [TRet; TRet], [false; false; true; false], [0; 0]).
+Proof. vm_compute. reflexivity. Qed.
+
+(* the matcher accepts the visible projection of this run *)
+Example ex_history_accepted :
+  accepts_history ex_cfg
+    [LCallReg 0; LRetReg 0; LCallTrig 0; LRetTrig 0; LFEnter 0; LFExit 0;
+     LCallReg 1; LRetReg 1; LFEnter 1; LFExit 1; LFEnter 1; LFExit 1;
+     LCallReg 2; LRetReg 2; LCallTrig 1; LRetTrig 1; LFEnter 2;
+     LCallStop 0; LRelease 2; LFExit 2; LRetStop 0; LQuiesce;
+     LCallReg 3; LRetReg 3; LQuiesce] = true.
+Proof. vm_compute. reflexivity. Qed.
+
+(* ... and rejects a history in which f runs after StopAndWait returned *)
+Example ex_history_rejected :
+  accepts_history ex_cfg
+    [LCallReg 0; LRetReg 0; LCallTrig 0; LRetTrig 0; LCallStop 0; LRetStop 0; LFEnter 0] = false.
+Proof. vm_compute. reflexivity. Qed.
